@@ -106,6 +106,30 @@ def handler_reraises(handler: ast.ExceptHandler) -> bool:
     return block(handler.body)
 
 
+def is_own_security_model(ctx: Ctx, fn: FuncInfo, expr: Optional[ast.AST], depth: int = 0) -> bool:
+    """``self.security_model``, a local bound to it, or an accessor method of the class that returns it."""
+    if expr is None or depth > 3:
+        return False
+    expr = strip_casts(expr)
+    if norm(expr) == "self.security_model":
+        return True
+    if isinstance(expr, ast.Name):
+        vals = ctx.defs(fn).all_values(expr.id)
+        return bool(vals) and all(is_own_security_model(ctx, fn, v, depth + 1) for v in vals)
+    if isinstance(expr, ast.Call) and isinstance(expr.func, ast.Attribute) and isinstance(expr.func.value, ast.Name) and expr.func.value.id == "self" and not expr.args and not expr.keywords:
+        owner = fn.cls
+        cur = fn
+        while owner is None and cur is not None:
+            cur = cur.parent
+            owner = cur.cls if cur is not None else None
+        meth = ctx.r.method(owner, expr.func.attr) if owner is not None else None
+        if meth is None or meth.module.external:
+            return False
+        rets = [n for n in own_nodes(meth.node) if isinstance(n, ast.Return)]
+        return bool(rets) and all(r.value is not None and is_own_security_model(ctx, meth, r.value, depth + 1) for r in rets)
+    return False
+
+
 def check_incoming_model(ctx: Ctx, rep: Any, rule: str, mpm_identifier: int, want_model: int) -> None:
     """
     The security model that vets an incoming message is the one the message-processing model installed for
@@ -127,7 +151,7 @@ def check_incoming_model(ctx: Ctx, rep: Any, rule: str, mpm_identifier: int, wan
         return
 
     def is_own_model(expr: Optional[ast.AST]) -> bool:
-        return expr is not None and norm(strip_casts(expr)) == "self.security_model"
+        return is_own_security_model(ctx, dec, expr)
 
     for call in calls:
         recv = strip_casts(call.func.value)
